@@ -5,6 +5,7 @@ import (
 	"encoding/json"
 	"errors"
 	"fmt"
+	"io"
 	"strings"
 
 	"github.com/pentops/j5/j5types/any_j5t"
@@ -31,14 +32,29 @@ func (c *Codec) decodeRoot(jsonData []byte, root j5reflect.Root) error {
 		codec: c,
 	}
 
+	var err error
 	switch schema := root.(type) {
 	case j5reflect.Object:
-		return d2.decodeObject(schema)
+		err = d2.decodeObject(schema)
 	case j5reflect.Oneof:
-		return d2.decodeOneof(schema)
+		err = d2.decodeOneof(schema)
 	default:
 		return fmt.Errorf("unsupported root schema type %T", schema)
 	}
+	if err != nil {
+		return err
+	}
+
+	// the input is one document: like json.Unmarshal, refuse anything but
+	// white space after the top-level value instead of ignoring it
+	tok, err := d2.Token()
+	if err == io.EOF {
+		return nil
+	}
+	if err != nil {
+		return err
+	}
+	return fmt.Errorf("unexpected data after top-level value: %v", tok)
 }
 
 // decoder is an instance for decoding a single message, not reusable.
